@@ -784,7 +784,7 @@ class TT():
             result = TT(cores_new)
 
         elif (np.isscalar(other) and not isinstance(other, str)) or (isinstance(other, tn.Tensor) and tn.numel(other) == 1):
-            if other != 0 or (isinstance(other, tn.Tensor) and other.requires_grad):
+            if other != 0 or (isinstance(other, tn.Tensor) and other.requires_grad) or any(c.requires_grad for c in self.cores):
                 cores_new = [c+0 for c in self.cores]
                 cores_new[0] = cores_new[0] * other
                 cores_new = [c.to(cores_new[0].dtype) for c in cores_new]
